@@ -944,8 +944,11 @@ Definition publish_ack2_encode (a : publish_ack2) (size : N) : wr :=
 (* ------------------------------------------------------------------ packet/publish.rs *)
 Fixpoint sub_ids_size (l : list N) : N :=
   match l with [] => 0 | id :: r => (1 + var_int_len id) + sub_ids_size r end.
+(* a subscription identifier above MAX_PACKET_SIZE is refused before its id byte is written *)
+Definition w_sub_id (id : N) : wr :=
+  if MAX_PACKET_SIZE <? id then wfail EE_MalformedPacket else w_u8 P_SUB_ID >>> w_vi id.
 Fixpoint w_sub_ids (l : list N) : wr :=
-  match l with [] => wnop | id :: r => w_u8 P_SUB_ID >>> w_vi id >>> w_sub_ids r end.
+  match l with [] => wnop | id :: r => w_sub_id id >>> w_sub_ids r end.
 
 Definition publish_properties_encoded_size (p : publish_properties) (_limit : N) : N :=
   let prop_len :=
@@ -1137,7 +1140,7 @@ Definition subscribe_encoded_size (s : subscribe) (_limit : N) : N :=
 Definition subscribe_encode (s : subscribe) (_size : N) : wr :=
   w_u16 (s_packet_id s) >>>
   w_vi (subscribe_prop_len s mod TWO32) >>>
-  match s_id s with Some id => w_u8 P_SUB_ID >>> w_vi id | None => wnop end >>>
+  match s_id s with Some id => w_sub_id id | None => wnop end >>>
   w_uprops (s_user_properties s) >>>
   w_sub_filters (s_topic_filters s).
 
